@@ -85,7 +85,16 @@ def run(model: Model, rep: Report) -> None:
         got = [x.name for x in v if isinstance(x, Lit)]
         r1.check(sorted(got) == sorted(want), f"pdfminer/pdftypes.py:{mod.assigns[name].lineno}:{name}", T + name, f"{name} == {want}", why=f"is {got}")
     dec = model.func(T + "PDFStream.decode")
-    loop = next((n for n in walk_no_nested(dec.node) if isinstance(n, ast.For) and any(isinstance(x, ast.Name) and x.id == "filters" for x in ast.walk(n.iter))), None)
+    def _is_filters(e: ast.AST) -> bool:
+        """the iterable is self.get_filters() itself or a local bound (once) to it"""
+        if isinstance(e, ast.Call) and (dotted(e.func) or "") == "self.get_filters":
+            return True
+        if isinstance(e, ast.Name):
+            ds = [a.value for a in walk_no_nested(dec.node) if isinstance(a, ast.Assign) and any(isinstance(t, ast.Name) and t.id == e.id for t in a.targets)]
+            return len(ds) == 1 and isinstance(ds[0], ast.Call) and (dotted(ds[0].func) or "") == "self.get_filters"
+        return False
+
+    loop = next((n for n in walk_no_nested(dec.node) if isinstance(n, ast.For) and _is_filters(n.iter)), None)
     if loop is None:
         raise AnchorMissing("PDFStream.decode: `for f, params in filters` not found")
     fvar = unparse(loop.target.elts[0]) if isinstance(loop.target, ast.Tuple) else "f"
@@ -117,16 +126,17 @@ def run(model: Model, rep: Report) -> None:
         r1.check(got is not None and got[0] == "pass", site(dec), dec.qualname, f"{gname} data is passed through unchanged", why=f"reaches {got}")
 
     # ---------------------------------------------------------------- R2
-    r2 = rep.rule("C03-R2", "ORDER", "filter k is paired with parameter k (scalar parameters replicated); filters applied in list order, predictor after its own filter", 5)
+    r2 = rep.rule("C03-R2", "ORDER", "filter k is paired with parameter k (scalar parameters replicated); filters applied in list order, predictor after its own filter", 6)
     gf = model.func(T + "PDFStream.get_filters")
     src = unparse(gf.node).replace(" ", "")
     r2.check("returnlist(zip(resolved_filters,resolved_params))" in src and "resolved_filters=[resolve1(f)forfinfilters]" in src and "resolved_params=[resolve1(param)forparaminparams]" in src, site(gf), gf.qualname, "pairs = zip(resolved filters, resolved parameters) in order; indirect entries resolved", why="pairing changed")
     r2.check("params=[params]*len(filters)" in src and "filters=[filters]" in src, site(gf), gf.qualname, "a single filter / a single parameter dictionary is normalised to lists of equal length", why="normalisation changed")
     r2.check("self.get_any(('F','Filter'),[])" in src and "self.get_any(('DP','DecodeParms','FDecodeParms'),{})" in src, site(gf), gf.qualname, "Filter (F) and DecodeParms (DP, FDecodeParms) keys", why="keys changed")
-    r2.check(unparse(loop.iter) == "filters" and "filters = self.get_filters()" in unparse(dec.node), site(dec, loop), dec.qualname, "decode walks get_filters() front to back, each stage feeding the next through `data`", why="iteration changed")
+    r2.check(_is_filters(loop.iter), site(dec, loop), dec.qualname, "decode walks get_filters() front to back, each stage feeding the next through `data`", why="iteration changed")
     pred_if = next((s for s in loop.body if isinstance(s, ast.If) and "'Predictor' in " + pvar in unparse(s.test)), None)
     okp = pred_if is not None and chain is not None and loop.body.index(pred_if) > loop.body.index(chain)
     r2.check(okp, site(dec, pred_if) if pred_if is not None else site(dec), dec.qualname, "the predictor of a filter is undone right after that filter, inside the loop", why="predictor block not after the filter dispatch inside the loop")
+    predictor_reached_instance(model, r2)
     # data flows into decipher first
     g = build_cfg(dec.node, exc_edges=False)
     dom = g.dominators()
@@ -275,6 +285,30 @@ def run(model: Model, rep: Report) -> None:
 
 def png_filters_rule(model: Model, rep: Report, rid: str) -> None:
     _png_filters(model, rep, model.func(U + "apply_png_predictor"), rid)
+
+
+def predictor_reached_instance(model: Model, rule) -> None:
+    """Whatever filter a stage of the chain is, its /Predictor is looked at: in the loop over get_filters() every path through
+    the body reaches the `'Predictor' in params` test (no `continue` / early exit between the decoder dispatch and it)."""
+    dec = model.func(T + "PDFStream.decode")
+
+    def _iter_ok(e: ast.AST) -> bool:
+        if isinstance(e, ast.Call) and (dotted(e.func) or "") == "self.get_filters":
+            return True
+        if isinstance(e, ast.Name):
+            ds = [a.value for a in walk_no_nested(dec.node) if isinstance(a, ast.Assign) and any(isinstance(t, ast.Name) and t.id == e.id for t in a.targets)]
+            return len(ds) == 1 and isinstance(ds[0], ast.Call) and (dotted(ds[0].func) or "") == "self.get_filters"
+        return False
+
+    loop = next((n for n in walk_no_nested(dec.node) if isinstance(n, ast.For) and _iter_ok(n.iter)), None)
+    if loop is None:
+        raise AnchorMissing("PDFStream.decode: loop over get_filters() not found")
+    frag = ast.FunctionDef(name="_body", args=ast.arguments(posonlyargs=[], args=[], kwonlyargs=[], kw_defaults=[], defaults=[]), body=loop.body, decorator_list=[], lineno=loop.lineno, col_offset=0)
+    g = build_cfg(frag, exc_edges=False)
+    wit = g.all_path_pass(g.entry, lambda n: n.kind == "test" and n.ast is not None and "'Predictor' in" in unparse(n.ast), skip_labels=("exc",))
+    # paths that end in a raise never deliver data and need no predictor
+    ok = wit is None or any(g.nodes[x].kind == "raise" for x in wit)
+    rule.check(ok, site(dec, loop), dec.qualname, "every path through one stage of the filter chain reaches the `'Predictor' in params` test", why="a stage can finish (continue / fall out) without its predictor being looked at: LZW or another filter with /Predictor 2 or >= 10 would deliver still-predicted bytes")
 
 
 def _png_filters(model: Model, rep: Report, png: FuncInfo, rid: str = "C03-R5") -> None:
